@@ -172,14 +172,24 @@ var aliasReviewed = map[string]string{
 	"implements.extractMethodTypesFromTuple": "the type of a variadic parameter is the slice the type checker builds, never an alias node",
 	"implements.convertTypesToInterfaceType": "string-model matcher: aliases in signatures are part of known finding KF-C05-1",
 	"implements.convertTypesToMethodType":    "string-model matcher: aliases in signatures are part of known finding KF-C05-1",
-	"implements.isPointerReceiver":           "a receiver's declared type is T or *T of the defined type; receiver base types cannot be aliases of pointer types",
 	"implements.getUnderlyingTypeName":       "operand is Named.Underlying(), which is never an alias",
 }
 
-func (c *Ctx) ruleAliasAll() {
+func (c *Ctx) ruleAliasAll(pkgs ...string) {
 	P := c.P
 	n := 0
 	for _, fn := range P.ModFuncs {
+		if len(pkgs) > 0 {
+			in := false
+			for _, p := range pkgs {
+				if funcPkgPath(fn) == modulePath+"/src/"+p {
+					in = true
+				}
+			}
+			if !in {
+				continue
+			}
+		}
 		idx := 0
 		allInstrs(fn, func(b *ssa.BasicBlock, ins ssa.Instruction) {
 			ta, ok := ins.(*ssa.TypeAssert)
@@ -219,7 +229,11 @@ func (c *Ctx) ruleAliasAll() {
 			}
 		})
 	}
-	c.floor("assertions from types.Type to concrete go/types nodes", n, 25)
+	if len(pkgs) == 0 {
+		c.floor("assertions from types.Type to concrete go/types nodes", n, 25)
+	} else {
+		c.floor("assertions from types.Type to concrete go/types nodes in "+strings.Join(pkgs, ","), n, 5)
+	}
 }
 
 // ruleNoSyntacticType: the only place where a type is identified by its spelling is the receiver of a
